@@ -1,7 +1,7 @@
 # C07 — condition variables never lose a notification (structural part; DESIGN.md §5 C07)
 import re
 from engine.core import AnalysisBroken, P, T, callee_of, callee_short, cond_atoms, loc_of, strip, forward, block_path, is_moved, walk
-from engine.kinds import (LockFlow, FactFlow, precedes_on_all_paths, eval_tree, Unknown, return_set, reaching_init)
+from engine.kinds import (LockFlow, FactFlow, precedes_on_all_paths, eval_tree, Unknown, return_set, reaching_init, eval_walk)
 from .common import facts, lib, driver, local_init
 from . import cvdetail
 
@@ -143,33 +143,44 @@ def run(rep, tier):
         if fn.raw.get("ret") != "pika::cv_status":
             continue
         w = [(b, i, ev) for b, i, ev in fn.all_events() if is_wait_call(ev)][0]
-        rets = [(b, i, ev) for b, i, ev in fn.all_events() if ev.get("k") == "return" and ev.get("e") is not None]
-        main = [(b, i, ev) for b, i, ev in rets if strip(ev["e"]).get("k") == "cond"]
-        if len(main) != 1:
-            raise AnalysisBroken("%s: expected one conditional return" % fn.full)
-        b, i, ev = main[0]
+        # the local that keeps the result of the wait call, whatever it is called
         var = None
-        for name in ("reason",):
-            ini = reaching_init(fn, name, (b, i))
-            if ini is not None and strip(ini).get("sid") == w[2].get("sid"):
-                var = name
-        if var is None:
-            # find the local initialised from the wait call
-            for _, _, d in fn.all_events():
-                if d.get("k") == "decl" and d.get("init") is not None and strip(d["init"]).get("sid") == w[2].get("sid"):
-                    var = d["var"]
+        wpos = None
+        for b_, i_, d in fn.all_events():
+            if d.get("k") == "decl" and d.get("init") is not None and strip(d["init"]).get("sid") == w[2].get("sid"):
+                var, wpos = d["var"], (b_, i_)
         if var is None:
             raise AnalysisBroken("%s: result of cond_.wait_until is not kept in a local" % fn.full)
+        # for every value the wait can return: walk from the wait to the returns ('c ? a : b' and if/else alike)
         bad = []
+        ev = w[2]
+        ffr = FactFlow(fn)
+        enums = D.enums.get("pika::cv_status") or {}
         for name, val in sorted(rset):
-            try:
-                out = eval_tree(ev["e"], {var: val})
-            except Unknown as e:
-                raise AnalysisBroken("%s: cannot evaluate %s" % (fn.full, T(ev["e"])))
-            enums = D.enums.get("pika::cv_status") or {}
-            is_timeout = out == enums.get("timeout")
-            if is_timeout != (name == "timeout"):
-                bad.append((name, out))
+            outs = set()
+            for evs, end in eval_walk(fn, wpos[0], tree_env={var: val}):
+                if end != "return":
+                    continue
+                r_ = evs[-1][2]
+                if not any(e is w[2] for _, _, e in evs) or r_.get("e") is None:
+                    continue
+                # only results that depend on the wait's outcome (an early 'if (ec) return error;' does not)
+                word = re.compile(r"(^|[^\w.>])%s($|[^\w])" % re.escape(var))
+                fbr = ffr.before.get((evs[-1][0], evs[-1][1])) or frozenset()
+                dep = bool(word.search(T(r_["e"]))) or any(word.search(a) for a, _ in fbr)
+                if not dep:
+                    continue
+                ev = r_
+                try:
+                    outs.add(eval_tree(r_["e"], {var: val}))
+                except Unknown as e:
+                    raise AnalysisBroken("%s: cannot evaluate %s" % (fn.full, T(r_["e"])))
+            if not outs:
+                raise AnalysisBroken("%s: no return after the wait" % fn.full)
+            for out in outs:
+                is_timeout = out == enums.get("timeout")
+                if is_timeout != (name == "timeout"):
+                    bad.append((name, out))
         if bad:
             rep.bad("C07.R3", fn, loc_of(ev), "status-mapping", "wait_until maps wait results wrongly: %s (a notified wait must not report a timeout and vice versa)" % bad)
         else:
